@@ -200,6 +200,20 @@ def rule_linker_map(ck):
         ck.ob("mpt.linker_map", "refresh_deferred/retries-all-three-kinds", {"set_breakpoint_at_addr", "set_breakpoint_at_line", "set_breakpoint_at_fn"} <= names, f"{sorted(n for n in names if n.startswith('set_breakpoint'))}", f.loc())
         st = [i for i, j, p, rv, sp in f.assigns() if p[-1:] == [".deferred_breakpoints"]]
         ck.ob("mpt.linker_map", "refresh_deferred/keeps-unresolved", len(st) >= 1, "", f.loc())
+        # no exit before the retry: the pass over the whole deferred list dominates every return
+        it = [c for c in f.calls() if re.search(r"Vec::<T, A>::(retain|retain_mut|extract_if|drain)$|::into_iter$|::iter$|::iter_mut$", c.name) and "DeferredBreakpoint" in (f.local_ty(c.args[0]["p"][0]) if c.args and c.args[0].get("p") else "")]
+        rets = [i for i, b in enumerate(f.blocks) if b["term"]["t"] == "return" and not b["cleanup"]]
+        ok = len(it) >= 1 and bool(rets) and all(any(f.dominates(c.bb, r) for c in it) for r in rets)
+        ck.ob("mpt.linker_map", "refresh_deferred/every-exit-retries-the-whole-list", ok, f"{len(it)} passes over the deferred list, {len(rets)} returns", f.loc(), what="refresh_deferred can return without retrying the deferred breakpoints (a library that appears then stays without its breakpoint)")
+        # the per-item closure tries to install on every path
+        for g in cl:
+            tries = [c for c in g.calls() if c.name.rsplit("::", 1)[-1] in ("set_breakpoint_at_addr", "set_breakpoint_at_line", "set_breakpoint_at_fn")]
+            if not tries:
+                continue
+            grets = [i for i, b in enumerate(g.blocks) if b["term"]["t"] == "return" and not b["cleanup"]]
+            reach_wo = g.reach_from([0], avoid={c.bb for c in tries})
+            ok = bool(grets) and not any(r in reach_wo for r in grets)
+            ck.ob("mpt.linker_map", "refresh_deferred/item-always-retried", ok, "", g.loc(), what="a deferred breakpoint can be kept without an installation attempt")
 
 
 def rule_region_lookup(ck):
